@@ -65,6 +65,13 @@ def make_cb(cbid, kind, rewrite, parameterized=False):
             return s2, new_a, (float if parameterized is True else parameterized)
         return s2, new_a
 
+    if sum(map(ord, str(cbid))) % 5 == 0:
+        # a callback that is a callable OBJECT python counts as false (a recorder that is a list of what it has seen, still empty)
+        class _Recorder(list):
+            def __call__(self, s, a, *params):
+                return cb(s, a, *params)
+
+        return _Recorder()
     return cb
 
 
@@ -492,8 +499,13 @@ class DuckColl(Generic[T]):
     def Where(self, f, **kwargs):
         r = self._stream.Where(f, **kwargs)
         return DuckColl(r.query_ast, r.item_type)
+def cb_evt_m(s, a):
+    LOG.append(("evtmethod", ast.unparse(a)))
+    return s.MetaData({"cb": "evtmethod"}), a
 class Evt:
     def met(self) -> float: ...
+    @func_adl_callback(cb_evt_m)
+    def rho(self) -> float: ...
     def djet(self) -> DataJet: ...
     def jets(self) -> JetColl[Jet]: ...
     def duck_jets(self) -> DuckColl[Jet]: ...
@@ -525,6 +537,8 @@ def q_duck_collection(ds): return ds.Select("lambda e: e.duck_jets().Select(lamb
 def q_duck_collection_where(ds): return ds.Select("lambda e: e.duck_jets().Where(lambda j: j.eta() > 1).Select(lambda j: j.pt())")
 def q_prop_other(ds): return ds.Select("lambda e: e.ojet().attr['b'](2)")
 def q_default_stage(ds): return ds.Select("lambda e, *, k=scale_impl_c09(1.5, by=4.0): e.met() * k")
+# ... the default is evaluated where the nested lambda is WRITTEN: its own parameter (same name as the enclosing one) means nothing there
+def q_default_same_name(ds): return ds.Select("lambda j: j.jets().Select(lambda j, *, s=j.rho(): j.pt() * s)")
 '''
 
 
@@ -547,6 +561,7 @@ def directed(ctx):
         "q_md_nested2": ([("method",), ("method",)], ["method", "method"], "k.eta() > j.eta()", None),
         "q_default_nested": ([("method",), ("func",)], ["method", "func"], "cut=scale_impl_c09(e.met(), 2.0)", None),
         "q_default_stage": ([("func",)], ["func"], "k=scale_impl_c09(1.5, 4.0)", None),
+        "q_default_same_name": ([("method",), ("evtmethod",)], ["method", "evtmethod"], "s=j.rho()", None),
         "q_prop_other": ([("prop2",)], ["prop2"], "attr(2)", "['b']"),
         "q_duck_collection": ([("method",)], ["method"], "j.pt()", None),
         "q_duck_collection_where": ([("method",), ("method",)], ["method", "method"], "j.eta() > 1", None),
